@@ -580,4 +580,39 @@ Proof.
     destruct (set_value_inv s x Hw Hv Hl) as (H1 & H2 & _ & H4 & _). apply IH; auto. left; congruence.
 Qed.
 
+
+(* ------------------------------------------------------------------ what a call can do to the state *)
+Lemma reconstrain_cases (s : shaped) d z s' e : reconstrain s d z = (s', e) ->
+  s' = s \/
+  (exists zz, z = Some zz /\ (0 <= zz)%Z /\ s' = set_cons s (dict_set (scons s) d (Z.to_nat zz)) /\ e = None) \/
+  (z = None /\ s' = set_cons s (dict_del (scons s) d) /\ In d (keys (scons s))) \/
+  (exists (t : tensor) zz, z = Some zz /\ (0 <= zz)%Z /\
+     sdat s = DTensor t /\ ignore (sdat s) = false /\ In d (keys (scons s)) /\
+     s' = mkShaped (sstrict s) (slive s) (sparam s) (dict_set (scons s) d (Z.to_nat zz))
+            (DTensor (make_compatible t d (Z.to_nat zz))) /\
+     e = None).
+Proof.
+  unfold reconstrain.
+  destruct z as [z|]; [destruct (Z.ltb_spec z 0) as [Hz|Hz]; [intros H; injection H as <- _; auto|]|];
+  destruct (lookup (scons s) d) as [s0|] eqn:El; cbn [option_map].
+  - assert (Hin : In d (keys (scons s))) by (eapply lookup_some_key; eauto).
+    destruct (sdat s) as [| |t] eqn:Ed.
+    + intros H; injection H as <- <-. right; left. eauto 6.
+    + intros H; injection H as <- <-. right; left. eauto 6.
+    + destruct (ignore (DTensor t)) eqn:Ei; [intros H; injection H as <- <-; right; left; eauto 6|].
+      destruct (_ && _); [|intros H; injection H as <- _; auto].
+      destruct (constraints_compatible t _ _); intros H; injection H as <- <-.
+      * right; left. eauto 6.
+      * right; right; right. exists t, z. auto 8.
+  - destruct (sdat s) as [| |t] eqn:Ed.
+    + intros H; injection H as <- <-. right; left. eauto 6.
+    + intros H; injection H as <- <-. right; left. eauto 6.
+    + destruct (ignore (DTensor t)); [intros H; injection H as <- <-; right; left; eauto 6|].
+      destruct (constraints_compatible t (scons s) (sstrict s)); [|intros H; injection H as <- _; auto].
+      destruct (constraints_compatible t _ _); intros H; injection H as <- <-; [right; left; eauto 6|auto].
+  - assert (Hin : In d (keys (scons s))) by (eapply lookup_some_key; eauto).
+    destruct (ignore_or_compatible _ _ _); intros H; injection H as <- _; right; right; left; auto.
+  - intros H; injection H as <- _; auto.
+Qed.
+
 End ShapedProofs.
